@@ -418,6 +418,9 @@ func doC11(ctx context.Context, w *out.Writer, r *rand.Rand, c *sdump.Config, ro
 	default:
 		depths = []int{1 + r.Intn(depth), 1 + r.Intn(depth), depth}
 	}
+	if c.Cfg != "static" {
+		depths = []int{depth, depth, depth} // the dump carries quiescence subtrees at its own depth only
+	}
 	for _, x := range depths {
 		b := root.b.Fork()
 		rec0 := sdump.Rec(b)
